@@ -547,6 +547,66 @@ func runC02(r *Run) {
 	r.Floor("R4", "StateDB balance mirrors in precompile handlers", nMirror, 3)
 	r.Count("R4 effect sites classified non-moving", nNonMoving)
 
+	// ---------- R11: a mirror after a reward-paying effect is measured, not assumed ----------
+	r.Rule("R11", "FLOW.mirror-measures-the-balance: the staking message server's Delegate, Undelegate, BeginRedelegate and CancelUnbondingDelegation run the distribution hooks, which pay the pending rewards of the touched delegation out to the delegator — so the delegator's bank balance changes by more than the message amount whenever rewards are pending. In a handler of such an effect the amount of every StateDB balance mirror derives from a bank-side balance read made after the effect (the measured change); an amount taken from the message alone leaves the rewards out, and the final Commit writes the cached balance over the bank's — the rewards are burned")
+	rewardPaying := map[string]string{
+		"Delegate":                  "Keeper.Delegate → BeforeDelegationSharesModified → distribution withdrawDelegationRewards",
+		"Undelegate":                "Keeper.Undelegate → Unbond → BeforeDelegationSharesModified",
+		"BeginRedelegate":           "Keeper.BeginRedelegation → Unbond + Delegate → hooks on both delegations",
+		"CancelUnbondingDelegation": "Keeper.Delegate back to the validator → BeforeDelegationSharesModified",
+	}
+	nRP := 0
+	for _, m := range models {
+		if !m.Stateful || !strings.HasSuffix(m.Rel, "/staking") {
+			continue
+		}
+		for _, h := range m.Handlers {
+			if h.Fn == nil || !h.IsTx {
+				continue
+			}
+			var eff ssa.CallInstruction
+			for _, s2 := range effectSites(h.Fn, 3, map[*ssa.Function]bool{}) {
+				if _, ok := rewardPaying[s2.Info.Name]; ok && strings.Contains(s2.Info.PkgPath, "x/staking") && s2.Call.Parent() == h.Fn {
+					eff = s2.Call
+				}
+			}
+			if eff == nil {
+				continue
+			}
+			nRP++
+			nM := 0
+			eachCall(h.Fn, func(ci CallInfo) {
+				if !isStateDBBalanceWrite(ci) {
+					return
+				}
+				nM++
+				a := ci.Instr.Common().Args
+				amount := a[len(a)-1]
+				measured := false
+				backSlice(amount).Any(func(v ssa.Value) bool {
+					c, ok := v.(*ssa.Call)
+					if !ok {
+						return false
+					}
+					g := callInfo(c)
+					if g.Recv == "StateDB" || !strings.Contains(g.Name, "Balance") {
+						return false
+					}
+					if instrMayPrecede(eff, c) {
+						measured = true
+					}
+					return measured
+				})
+				r.Check(measured, "R11", fmt.Sprintf("%s#mirror-measures-the-balance/%s", fnID(h.Fn), ci.Name), P.Pos(instrPos(ci.Instr)), "mirrored amount derives from a balance read after the effect",
+					"the handler mirrors a fixed amount (taken from the message) into the StateDB after an effect that also pays out the delegation's pending rewards: the cached balance misses the rewards and the final Commit burns them — for a direct call by the delegator, the most ordinary use")
+			})
+			if nM == 0 {
+				r.OK("R11", fnID(h.Fn)+"#mirror-measures-the-balance", P.Pos(fnPos(h.Fn)), "no StateDB mirror in this handler (the missing mirror is R4's subject)")
+			}
+		}
+	}
+	r.Floor("R11", "staking handlers with a reward-paying effect", nRP, 4)
+
 	// ---------- R5 ----------
 	var wiredAddrs []string
 	for _, m := range models {
